@@ -152,6 +152,8 @@ type poly struct {
 	only   bool     // evaluate only the extra points
 	exact  bool     // every cut point is expected to lie exactly on its segment (axis-parallel edges)
 	mid    bool     // add the rows/columns midway between consecutive grid levels (strictly inside short walls)
+	light  bool     // small grid / few random points (strata that multiply the number of polygons)
+	noCoq  bool     // oracles only (very many segments: the Coq cases would dominate the quick tier)
 }
 
 func reverse(v []v2.Vec) []v2.Vec {
@@ -364,6 +366,51 @@ func genPolys(rng *Rng, tier string) []poly {
 					ps = append(ps, poly{name: e.n, family: "onsplit/short-walls-on-lines", v: e.v, mid: true})
 				}
 			}
+		}
+		// ---- absolute SCALE as a dimension (the property quantifies over all polygons; the library
+		// has absolute tolerances 1e-9): the same shapes multiplied by 1e-6 .. 1e-3 and 1e3 .. 1e6, so
+		// that edges and clipped pieces have lengths from 1e-7 up to 1e6 ...
+		shapes := []struct {
+			n string
+			v []v2.Vec
+		}{
+			{"star5", star(5, 1, 0.4, 0.3)},
+			{"L", []v2.Vec{{X: 0, Y: 0}, {X: 4, Y: 0}, {X: 4, Y: 1}, {X: 1, Y: 1}, {X: 1, Y: 3}, {X: 0, Y: 3}}},
+			{"heptagon", ngon(7, func(int) float64 { return 1 }, 0.2)},
+			{"comb5rot", rotate(comb(5, 0.3, 0.2, 2, 0.4), 0.7)},
+			{"arrow", []v2.Vec{{X: 0, Y: 0}, {X: 2, Y: 1}, {X: 0, Y: 2}, {X: 0.5, Y: 1}}},
+		}
+		scales := []float64{1e-6, 1e-5, 1e-4, 1e-3, 1e3, 1e4, 1e5, 1e6}
+		for si, sc := range scales {
+			for hi, sh := range shapes {
+				if quick && (hi+si)%len(shapes) >= 2 {
+					continue // quick: two shapes per scale, rotating
+				}
+				k := sc * rng.Uniform(0.8, 2.2)
+				v := xform(sh.v, k, 0, 0)
+				if (si+hi)%3 == 0 {
+					v = xform(sh.v, k, rng.Uniform(-3, 3)*k, rng.Uniform(-3, 3)*k)
+				}
+				if (si+hi)%2 == 1 {
+					v = reverse(v)
+				}
+				ps = append(ps, poly{name: fmt.Sprintf("%s*%.3g%s", sh.n, k, tag), family: fmt.Sprintf("scale/%g", sc), v: v, light: true})
+			}
+		}
+		// ... and outlines with very many very short edges (facetted discs and wavy rings at mm scale)
+		for fi, f := range []struct {
+			n int
+			r float64
+		}{{720, 2e-3}, {500, 1e-3}, {1000, 5e-3}, {2000, 2e-2}} {
+			if quick && fi >= 2 {
+				break
+			}
+			ph := rng.Uniform(0, 6)
+			v := ngon(f.n, func(i int) float64 { return f.r * (1 + 0.05*math.Sin(ph+float64(i)*2*math.Pi*5/float64(f.n))) }, rng.Uniform(0, 0.01))
+			if fi%2 == 1 {
+				v = reverse(v)
+			}
+			ps = append(ps, poly{name: fmt.Sprintf("facets%d(r=%g)%s", f.n, f.r, tag), family: "scale/many-short-edges", v: v, light: true, noCoq: quick || f.n > 800})
 		}
 	}
 	return ps
@@ -744,6 +791,10 @@ func check(c *Ctx, r *Report) error {
 		for _, q := range pl.extra {
 			pts = append(pts, qpoint{q, "corpus"})
 		}
+		gridCap, nRandom, coqPts := gridCap, nRandom, coqPts
+		if pl.light {
+			gridCap, nRandom, coqPts = gridCap/8, nRandom/5, coqPts/3
+		}
 		full := len(xs)*len(ys) <= gridCap
 		if pl.only {
 			full = false
@@ -771,7 +822,11 @@ func check(c *Ctx, r *Report) error {
 			if pl.only {
 				break
 			}
-			for k := 0; k < 6; k++ {
+			nu := 6
+			if pl.light {
+				nu = 2
+			}
+			for k := 0; k < nu; k++ {
 				x := xs[rng.Intn(len(xs))]
 				pts = append(pts, qpoint{v2.Vec{X: x, Y: math.Nextafter(y, math.Inf(1))}, "ulp-above-level"})
 				pts = append(pts, qpoint{v2.Vec{X: x, Y: math.Nextafter(y, math.Inf(-1))}, "ulp-below-level"})
@@ -857,6 +912,9 @@ func check(c *Ctx, r *Report) error {
 				"grid": fmt.Sprintf("%dx%d full=%v", len(xs), len(ys), full), "p": o.q.p, "fast": o.f, "slow": o.s})
 		}
 
+		if pl.noCoq {
+			continue
+		}
 		// ---- Coq cases: the tree (clip model = dump, certificate) ...
 		ch, prob := chains(lines, ti.pieces)
 		if prob != "" {
@@ -920,7 +978,7 @@ func check(c *Ctx, r *Report) error {
 	r.Coverage["sign_disagreements"] = signDis
 	r.Coverage["value_disagreements"] = valDis
 	r.Coverage["clip_assignment_failures"] = certBad
-	r.Rule = "polygon families (stars incl. the two stars of the repaired defects, convex, rectilinear with collinear/horizontal/vertical edges, combs, thin, 200-gons, shapes with vertices on the quadtree centre lines and with edges lying exactly ON centre and level-2 split lines; both orientations; dyadic, irrational and far-offset coordinates) x query points = full grid {vertex and cut-point xs, every quadtree box edge and centre x, bounding box xs, far (10 and 1e6 sizes away)} x {same for y} (rows kept, columns subsampled above the tier's cap), one ulp above/below every vertex level, random points. Oracles per point: sign(quadtree) = sign(brute force) = exact crossing-number sign (rational arithmetic; skipped only where the exact distance is <= 1e-12*scale), | |fast|-|slow| | <= 1e-12 relative + 1e-13*scale, |value| vs exact distance (1e-12 relative + 1e-12*scale). non-trivial = every case; distinct by polygon hash and exact point bits."
+	r.Rule = "polygon families (stars incl. the two stars of the repaired defects, convex, rectilinear with collinear/horizontal/vertical edges, combs, thin, 200-gons, shapes with vertices on the quadtree centre lines and with edges lying exactly ON centre and level-2 split lines; both orientations; dyadic, irrational and far-offset coordinates; absolute scale as a dimension: shapes multiplied by 1e-6..1e-3 and 1e3..1e6, facetted outlines with 500..2000 edges of 1e-5..1e-4 length) x query points = full grid {vertex and cut-point xs, every quadtree box edge and centre x, bounding box xs, far (10 and 1e6 sizes away)} x {same for y} (rows kept, columns subsampled above the tier's cap), one ulp above/below every vertex level, random points. Oracles per point: sign(quadtree) = sign(brute force) = exact crossing-number sign (rational arithmetic; skipped only where the exact distance is <= 1e-12*scale), | |fast|-|slow| | <= 1e-12 relative + 1e-13*scale, |value| vs exact distance (1e-12 relative + 1e-12*scale). non-trivial = every case; distinct by polygon hash and exact point bits."
 	r.Trusted = append(r.Trusted,
 		"hand model coq/Sdf/Poly.v tied by differential execution at FOps: the model of Mesh2D/qtBuild/lineIntersect/tAppend/Snap rebuilds the dumped quadtree of every tested polygon bit for bit; eval_fast on the dumped tree and eval_slow on the segments reproduce Evaluate (sign exactly, value within fclose; absolute 2^-40*scale on the boundary)",
 		"quadtree dump hook sdf/verif_hooks_c04.go (copies the private fields)",
